@@ -312,6 +312,42 @@ func c12fmtMap(m map[string]string) string {
 	return b.String()
 }
 
+// sweepAgreement: in a run with one node in which no crash, store error or
+// watch fault has fired so far, whatever the node answers for a subscriber at a
+// quiescent point must be on record in the store with the same address: every
+// successful allocate/renew wrote it, and the store's own cleanup only removes
+// records of leases the node no longer answers for. (The reverse - a record the
+// node no longer answers for - is legitimate: store cleanup is lazy.)
+func (w *c12world) sweepAgreement(after string) {
+	c := w.c
+	if len(w.slots) != 1 || w.st.perturbed || c.Failed() {
+		return
+	}
+	sl := w.slots[0]
+	if !sl.up || sl.tok.Dead() {
+		return
+	}
+	for _, sub := range w.subs {
+		m, rec := w.get(sl, sub), w.record(sub)
+		if m == rec {
+			continue
+		}
+		if m == "" && (w.lease && sl.ticks > 0) {
+			continue // the lease may have run out in memory; the store is cleaned lazily
+		}
+		detail := "store-differs"
+		if rec == "" {
+			detail = "store-absent"
+		} else if m == "" {
+			detail = "memory-absent"
+		}
+		c.Fail("memory-store-agreement", fmt.Sprintf("agree/%s/%s/after=%s", w.modeName(), detail, after),
+			"no fault has fired, yet node n%d answers %q for %s while the store record says %q", sl.idx, m, sub, rec)
+		return
+	}
+	c.S.Probe("agreement_swept_faultfree")
+}
+
 // checkInnerJSON: oracle (4) on the allocator state the distributed paths reached.
 func (w *c12world) checkInnerJSON() {
 	for _, sl := range w.slots {
